@@ -255,7 +255,7 @@ void harness_case(Dec &d, Case &c) {
     case 7: { // shape with many links (boundary 62..66)
         Ctx ctx; unsigned n = 60 + d.pick(8); KSI_AggregationHashChain *ch = nullptr; KSI_AggregationHashChain_new(ctx, &ch);
         KSI_LIST(KSI_HashChainLink) *list = nullptr; KSI_HashChainLinkList_new(&list); std::vector<bool> dirs;
-        for (unsigned i = 0; i < n; i++) { KSI_HashChainLink *k = nullptr; KSI_HashChainLink_new(ctx, &k); bool l = d.flag(); dirs.push_back(l); KSI_HashChainLink_setIsLeft(k, l); KSI_HashChainLinkList_append(list, k); }
+        for (unsigned i = 0; i < n; i++) { KSI_HashChainLink *k = nullptr; KSI_HashChainLink_new(ctx, &k); bool l = d.flag(); dirs.push_back(l); static const int truthy[] = {1, 1, 4, 5, -1, 255}; int lv = l ? truthy[(i + n) % 6] : 0; if (lv != 0 && lv != 1) c.cls("shape:left-flag-set-to-another-non-zero-value"); KSI_HashChainLink_setIsLeft(k, lv); /* the member is an int: any non-zero value means left */ KSI_HashChainLinkList_append(list, k); }
         KSI_AggregationHashChain_setChain(ch, list); uint64_t want = 0; bool fits = ref::shapeBits(dirs, want); KSI_uint64_t got = 0; int rs = KSI_AggregationHashChain_calculateShape(ch, &got);
         if (fits) { VF_CHECK(c, rs == KSI_OK && got == want, "C03:shape:value-differs", "shape of " + num(n) + " links differs / refused"); c.cls("shape:fits"); }
         else { if (rs == KSI_OK) VF_FAIL(c, "C03:shape:too-long-accepted", "shape of " + num(n) + " links does not fit 64 bits but returned KSI_OK with value " + std::to_string((unsigned long long)got)); c.cls("shape:too-long"); }
